@@ -1,5 +1,7 @@
 import LlirProofs.CoreLemmas
 import LlirProofs.Props.C06
+import LlirModel.CallSite
+import LlirProofs.TyParseMain
 /-! # C03 — IR built through the constructors prints to valid, faithful LLVM assembly (property theorems only)
 
 PARTIAL: the printing/re-parsing theorem covers constructor images inside M-Core (modules built with
@@ -24,5 +26,34 @@ theorem constructed_prints_faithfully (useHex : Int → Bool) (ts : List Bytes) 
 theorem constructor_accepts_well_typed (k : Typing.Kind) (ops : List Types.Ty) (t : Types.Ty)
     (hw : Typing.LLVMSpec.wellTyped k ops = true) (h : Typing.LLVMSpec.resultType k ops = some t) :
     Typing.resultIR k ops = .ok t := Props.C06.ir_agrees_with_llvm k ops t hw h
+
+/-! ## call sites denote the callee they were constructed with -/
+
+def isFunc : Types.Ty → Bool
+  | .func _ _ _ => true
+  | _ => false
+
+/-- For every callee signature (any return type that is not itself a function type — LLVM has no such
+    functions —, any parameter list, variadic or not): LLVM reads the type spelled at a printed call /
+    invoke / callbr site, together with the types of the actual arguments, back as EXACTLY the callee's
+    signature. For a non-variadic callee the arguments are its parameters; for a variadic callee the
+    signature is spelled in full, whatever extra arguments follow. -/
+theorem call_site_denotes_callee (r : Types.Ty) (ps : Types.TyList) (v : Bool) (args : Types.TyList)
+    (hr : isFunc r = false) (hargs : v = false → args = ps) :
+    CallSite.LLVMSpec.calleeSig (CallSite.callSiteType (.func r ps v)) args = some (.func r ps v) := by
+  unfold CallSite.callSiteType CallSite.LLVMSpec.calleeSig
+  cases v with
+  | true => simp [TyParse.parse_tyString]
+  | false =>
+    simp only [Bool.false_eq_true, if_false, TyParse.parse_tyString]
+    rw [hargs rfl]
+    cases r <;> simp_all [isFunc]
+
+/-- the spelling is needed: dropping the signature of a variadic callee changes the callee LLVM reads
+    (`i32 (i8*, ...)` invoked with one argument would be read as `i32 (i8*)`) -/
+example : CallSite.LLVMSpec.calleeSig (Types.tyString (.int 32)) (.cons (.ptr (.int 8) 0) .nil)
+    ≠ some (.func (.int 32) (.cons (.ptr (.int 8) 0) .nil) true) := by
+  have h : TyParse.parse (Types.tyString (.int 32)) = some (.int 32) := TyParse.parse_tyString _
+  simp [CallSite.LLVMSpec.calleeSig, h]
 
 end Llir.Props.C03
